@@ -5,6 +5,13 @@
 (* pins (Pin) is consistent with it - so the oracle the code is compared with is not           *)
 (* self-contradictory.  The same state space, one behaviour (x, y) --Eval--> done, is the       *)
 (* source of the S2C replay: MC_Eq_gen*.cfg print every pair with what the statement pins.     *)
+(*                                                                                             *)
+(* Two blocks of pairs: U x U (values, each realised the plain way) and UV x UV - REALISATION   *)
+(* VARIANTS: every insertion order of the dicts of a value at every depth (Reals), arrays /     *)
+(* Series / frames that are views into one shared buffer at every offset / stride (ViewsOf)    *)
+(* next to arrays that own the same cells, and the look-alikes of a value in which a missing-   *)
+(* value marker None / NaN / NaT is replaced by another one (Miss).  x and y are concrete       *)
+(* descriptors; the clauses speak about the values Norm(x), Norm(y).                            *)
 EXTENDS Eq, TLC, Json, SequencesExt
 CONSTANTS Wide, Nest
 
@@ -76,51 +83,143 @@ U0 == Scalars \cup Plains \cup Others \cup (IF Wide THEN ScalarsW \cup PlainsW \
 \* Nest: every value once more inside a list (one more level of nesting for everything)
 U == U0 \cup (IF Nest THEN {VLst(<<u>>) : u \in U0} ELSE {})
 
-Init == x \in U /\ y \in U /\ s = <<>> /\ done = FALSE
+\* ---- realisation variants --------------------------------------------------------------------
+RECURSIVE SeqsOver(_)          \* the sequences q with q[i] \in S[i]
+SeqsOver(S) == IF S = <<>> THEN {<<>>} ELSE {<<h>> \o t : h \in S[1], t \in SeqsOver(Tail(S))}
+Ident(n)   == [i \in 1..n |-> i]
+PermsOf(n) == {p \in [1..n -> 1..n] : IsPerm(p, n)}
+\* every realisation of value v that differs in the insertion order of a dict, at any depth
+RECURSIVE Reals(_)
+SeqReals(q) == SeqsOver([i \in 1..Len(q) |-> Reals(q[i])])
+KvsReals(kvs) == {[i \in 1..Len(kvs) |-> <<kvs[i][1], q[i]>>] : q \in SeqsOver([i \in 1..Len(kvs) |-> Reals(kvs[i][2])])}
+Reals(v) ==
+    CASE Tag(v) \in {"t", "l"} -> {<<Tag(v), q>> : q \in SeqReals(Pay(v))}
+      [] Tag(v) = "m" -> {IF p = Ident(Len(k)) THEN VDict(k) ELSE VDictO(p, k) : p \in PermsOf(Len(Pay(v))), k \in KvsReals(Pay(v))}
+      [] Tag(v) = "M" -> {IF p = Ident(Len(k)) THEN VSub(Pay(v)[1], k) ELSE VSubO(Pay(v)[1], p, k) : p \in PermsOf(Len(Pay(v)[2])), k \in KvsReals(Pay(v)[2])}
+      [] Tag(v) = "a" /\ Pay(v)[1] = "object" -> {VArr(Pay(v)[1], Pay(v)[2], q) : q \in SeqReals(Pay(v)[3])}
+      [] Tag(v) = "S" /\ Pay(v)[1] = "object" -> {VSer(Pay(v)[1], Pay(v)[2], q) : q \in SeqReals(Pay(v)[3])}
+      [] OTHER -> {v}
+\* every look-alike of v in which the missing-value markers held as objects (cells of lists, tuples,
+\* dicts, object arrays / Series / frames) are None, a NaN or NaT
+RECURSIVE Miss(_)
+SeqMiss(q) == SeqsOver([i \in 1..Len(q) |-> Miss(q[i])])
+Miss(v) ==
+    CASE Tag(v) \in {"n", "nan", "nat"} -> {None, VNaN(7), VNaT}
+      [] Tag(v) \in {"t", "l"} -> {<<Tag(v), q>> : q \in SeqMiss(Pay(v))}
+      [] Tag(v) = "m" -> {VDict([i \in 1..Len(q) |-> <<Pay(v)[i][1], q[i]>>]) : q \in SeqMiss([i \in 1..Len(Pay(v)) |-> Pay(v)[i][2]])}
+      [] Tag(v) = "a" /\ Pay(v)[1] = "object" -> {VArr(Pay(v)[1], Pay(v)[2], q) : q \in SeqMiss(Pay(v)[3])}
+      [] Tag(v) = "S" /\ Pay(v)[1] = "object" -> {VSer(Pay(v)[1], Pay(v)[2], q) : q \in SeqMiss(Pay(v)[3])}
+      [] Tag(v) = "F" /\ Pay(v)[1] = "object" -> {VFrm(Pay(v)[1], Pay(v)[2], Pay(v)[3], q) : q \in SeqMiss(Pay(v)[4])}
+      [] OTHER -> {v}
+\* the views of the given shapes and strides into buffer id (cells bc) at every offset
+ViewsOf(dt, id, bc, shapes, strides) ==
+    {w \in {VView(dt, id, bc, off, sh, st) : off \in 0..(Len(bc) - 1), sh \in shapes, st \in strides} : ViewOK(w)}
+
+Dab  == VDict(<<<<"a", I(1)>>, <<"b", I(2)>>>>)
+Dab2 == VDict(<<<<"a", I(2)>>, <<"b", I(1)>>>>)            \* the values of Dab in the other order: NOT Dab re-ordered
+OrdBase  == {Dab, VLst(<<Dab>>), VDict(<<<<"a", Dab>>, <<"b", I(1)>>>>), VSub("Dict", <<<<"a", I(1)>>, <<"b", I(2)>>>>),
+             VDict(<<<<"a", VNaN(1)>>, <<"b", Arr12>>>>)}
+OrdBaseW == {VDict(<<<<"a", I(1)>>, <<"b", VNaN(2)>>, <<"c", VLst(<<I(1)>>)>>>>), VDict(<<<<"k", VTup(<<Dab>>)>>>>), VTup(<<Dab, Dab>>),
+             VArr("object", <<1>>, <<Dab>>), VSer("object", <<I(0)>>, <<Dab>>), VSub("dictattr", <<<<"a", I(1)>>, <<"b", I(2)>>>>),
+             VDict(<<<<"a", VSer("float64", RI2, <<F(1, 1), VNaN(0)>>)>>, <<"b", VDict(<<<<"a", VNaN(3)>>, <<"b", None>>>>)>>>>)}
+OrdVar == {Dab2} \cup UNION {Reals(u) : u \in OrdBase \cup (IF Wide THEN OrdBaseW ELSE {})}
+
+Buf1 == <<I(1), I(2), I(1), I(2), I(1), I(3)>>                         \* int64, buffer 1
+Buf2 == <<VNaN(0), F(1, 1), VNaN(0), F(1, 1), F(7, 1)>>                \* float64, buffer 2
+Buf3 == <<None, I(1), VNaN(6), I(1), VStr("a"), None>>                 \* object, buffer 3
+Views1 == ViewsOf("int64", 1, Buf1, {<<2>>, <<2, 2>>}, {<<1>>, <<3>>, <<3, 1>>})
+          \cup (IF Wide THEN ViewsOf("int64", 1, Buf1, {<<2>>, <<3>>, <<2, 2>>, <<2, 3>>, <<>>},
+                                     {<<1>>, <<-1>>, <<2>>, <<3>>, <<3, 1>>, <<1, 3>>, <<1, 1>>, <<-3, 1>>, <<>>}) ELSE {})
+Views2 == ViewsOf("float64", 2, Buf2, {<<3>>}, {<<1>>})
+          \cup (IF Wide THEN ViewsOf("float64", 2, Buf2, {<<3>>, <<2, 2>>}, {<<1>>, <<-1>>, <<2>>, <<2, 1>>, <<1, 1>>}) ELSE {})
+Views3 == IF Wide THEN ViewsOf("object", 3, Buf3, {<<2>>, <<3>>}, {<<1>>, <<2>>, <<-1>>}) ELSE {}
+W(off, sh, st) == VView("int64", 1, Buf1, off, sh, st)
+AB == <<VStr("a"), VStr("b")>>
+ViewCarriers ==
+    {VSerV(RI2, W(0, <<2>>, <<1>>)), VSerV(RI2, W(1, <<2>>, <<1>>)), VFrmV(RI2, AB, W(0, <<2, 2>>, <<3, 1>>)), VFrmV(RI2, AB, W(1, <<2, 2>>, <<3, 1>>)),
+     VLst(<<W(0, <<2>>, <<1>>)>>), VLst(<<W(1, <<2>>, <<1>>)>>), VDict(<<<<"a", W(2, <<2>>, <<1>>)>>>>)}
+    \cup (IF Wide THEN {VSerV(RI2, W(2, <<2>>, <<1>>)), VSerV(RI2, W(0, <<2>>, <<3>>)), VSerV(<<I(1), I(2)>>, W(0, <<2>>, <<1>>)),
+                        VFrmV(RI2, AB, W(0, <<2, 2>>, <<1, 3>>)), VFrmV(RI2, <<VStr("a")>>, W(0, <<2, 1>>, <<1, 1>>)), VFrmV(RI2, <<VStr("a")>>, W(1, <<2, 1>>, <<1, 1>>)),
+                        VSerV(<<I(0), I(1), I(2)>>, VView("float64", 2, Buf2, 0, <<3>>, <<1>>)), VSerV(<<I(0), I(1), I(2)>>, VView("float64", 2, Buf2, 2, <<3>>, <<1>>)),
+                        VTup(<<W(0, <<2>>, <<1>>), W(1, <<2>>, <<1>>)>>), VTup(<<W(1, <<2>>, <<1>>), W(0, <<2>>, <<1>>)>>),
+                        VArr("object", <<1>>, <<W(0, <<2>>, <<1>>)>>), VArr("object", <<1>>, <<W(1, <<2>>, <<1>>)>>)} ELSE {})
+Views  == Views1 \cup Views2 \cup Views3
+\* ... and, next to the views, arrays that own the same cells
+ViewVar == Views \cup ViewCarriers \cup {Norm(w) : w \in Views} \cup (IF Wide THEN {Norm(w) : w \in ViewCarriers} ELSE {})
+
+MissBase  == {VSer("object", <<I(0), I(1), I(2)>>, <<None, F(1, 1), VStr("a")>>), VFrm("object", RI2, <<VStr("a")>>, <<None, F(2, 1)>>),
+              VArr("object", <<2>>, <<None, I(1)>>)}
+MissBaseW == {VLst(<<None, I(1)>>), VTup(<<None>>), VDict(<<<<"a", None>>>>), VSer("object", RI2, <<None, None>>),
+              VFrm("object", RI2, AB, <<None, I(1), None, VStr("a")>>), VArr("object", <<1, 2>>, <<None, I(1)>>), VDict(<<<<"k", VSer("object", <<I(0)>>, <<None>>)>>>>)}
+MissVar == UNION {Miss(u) : u \in MissBase \cup (IF Wide THEN MissBaseW ELSE {})}
+
+UV   == OrdVar \cup ViewVar \cup MissVar
+UAll == U \cup UV
+NU   == {Norm(u) : u \in UAll}             \* the values of both blocks
+NX   == Norm(x)
+NY   == Norm(y)
+
+Init == ((x \in U /\ y \in U) \/ (x \in UV /\ y \in UV)) /\ s = <<>> /\ done = FALSE
+InitVar == x \in UV /\ y \in UV /\ s = <<>> /\ done = FALSE       \* the block of realisation variants alone
 Eval == done = FALSE /\ done' = TRUE /\ UNCHANGED <<x, y, s>>
 \* S2C generator: the pair and what the statement pins for it - ifT / ifF name the clause the
 \* code violates if it answers True / False ("" = that answer is admitted)
-EvalGen == Eval /\ PrintT(ToJson([x |-> x, y |-> y, ifT |-> ClauseIfT(x, y), ifF |-> ClauseIfF(x, y), at |-> At(x, y)]))
+\* (var: the pair belongs to the block of realisation variants only)
+EvalGen == Eval /\ PrintT(ToJson([x |-> x, y |-> y, ifT |-> ClauseIfTC(x, y), ifF |-> ClauseIfFC(x, y), at |-> AtC(x, y), var |-> (x \notin U \/ y \notin U)]))
 
-\* S2C generator for in_: x against a few sequences over the universe
+\* S2C generator for in_: x against a few sequences over the universe (values and realisation variants)
 SeqU == {<<>>, <<None>>, <<I(1), I(2)>>, <<VNaN(2), VStr("a")>>, <<VLst(<<I(1)>>), VTup(<<I(1)>>), Arr12>>,
          <<VLst(<<VNaN(2)>>), VDict(<<<<"a", F(1, 1)>>>>)>>, <<VArr("float64", <<2>>, <<F(1, 1), VNaN(0)>>), VSer("float64", RI2, <<F(1, 1), VNaN(0)>>)>>,
-         <<VSub("Dict", <<<<"a", I(1)>>>>), VFrm("int64", RI2, <<VStr("a")>>, <<I(1), I(2)>>), NpS("float32", VNaN(9))>>}
-InitIn == x \in U /\ y = None /\ s \in SeqU /\ done = FALSE
+         <<VSub("Dict", <<<<"a", I(1)>>>>), VFrm("int64", RI2, <<VStr("a")>>, <<I(1), I(2)>>), NpS("float32", VNaN(9))>>,
+         <<None, Dab>>, <<Dab2, VLst(<<Dab>>), VDictO(<<2, 1>>, <<<<"a", I(1)>>, <<"b", I(2)>>>>)>>,
+         <<W(1, <<2>>, <<1>>), W(2, <<2>>, <<1>>)>>, <<VSerV(RI2, W(1, <<2>>, <<1>>)), VArr("object", <<2>>, <<VNaN(8), I(1)>>)>>,
+         <<VSer("object", <<I(0), I(1), I(2)>>, <<VNaN(8), F(1, 1), VStr("a")>>), VFrm("object", RI2, <<VStr("a")>>, <<VNaT, F(2, 1)>>)>>}
+InitIn == x \in UAll /\ y = None /\ s \in SeqU /\ done = FALSE
 EvalIn == done = FALSE /\ done' = TRUE /\ UNCHANGED <<x, y, s>>
-PinIn(u, q) == IF \E i \in 1..Len(q) : Pin(u, q[i]) = "T" /\ \A j \in 1..(i - 1) : Pin(u, q[j]) = "F" THEN "T"
-               ELSE IF \A i \in 1..Len(q) : Pin(u, q[i]) = "F" THEN "F" ELSE "free"
+PinIn(u, q) == IF \E i \in 1..Len(q) : PinC(u, q[i]) = "T" /\ \A j \in 1..(i - 1) : PinC(u, q[j]) = "F" THEN "T"
+               ELSE IF \A i \in 1..Len(q) : PinC(u, q[i]) = "F" THEN "F" ELSE "free"
 EvalInGen == EvalIn /\ PrintT(ToJson([x |-> x, seq |-> s, want |-> IF PinIn(x, s) = "free" THEN <<"T", "F">> ELSE <<PinIn(x, s)>>]))
 P_InLaws ==
-    /\ InSpec(x, <<>>) = FALSE
-    /\ \A i \in 1..Len(s) : InSpec(x, SubSeq(s, 1, i)) = (InSpec(x, SubSeq(s, 1, i - 1)) \/ EqSpec(x, s[i]))
-    /\ (PinIn(x, s) = "T" => InSpec(x, s))
-    /\ (PinIn(x, s) = "F" => ~InSpec(x, s))
+    /\ InSpec(NX, <<>>) = FALSE
+    /\ \A i \in 1..Len(s) : InSpec(NX, NormSeq(SubSeq(s, 1, i))) = (InSpec(NX, NormSeq(SubSeq(s, 1, i - 1))) \/ EqC(x, s[i]))
+    /\ (PinIn(x, s) = "T" => InSpec(NX, NormSeq(s)))
+    /\ (PinIn(x, s) = "F" => ~InSpec(NX, NormSeq(s)))
 
 \* ---- the clauses of the statement, on the specification -------------------------------------
-P_Reflexive   == EqSpec(x, x) /\ EqSpec(x, Fresh(x)) /\ EqSpec(Fresh(x), x) /\ StructCopy(x, Fresh(x))
-P_Symmetric   == EqSpec(x, y) = EqSpec(y, x)
-P_Transitive  == \A z \in U : (EqSpec(x, y) /\ EqSpec(y, z)) => EqSpec(x, z)
-P_TypeStrict  == Kind(x) # Kind(y) => ~EqSpec(x, y)
-P_ShapeStrict == (Tag(x) = "a" /\ Tag(y) = "a" /\ Pay(x)[2] # Pay(y)[2]) => ~EqSpec(x, y)
-P_AgreesWithPy == (Plain(x) /\ Plain(y) /\ NaNFree(x) /\ NaNFree(y)) => (EqSpec(x, y) = PyEqX(x, y))
-P_PinSound ==
-    /\ (Pin(x, y) = "T" => EqSpec(x, y))
-    /\ (Pin(x, y) = "F" => ~EqSpec(x, y))
-    /\ Pin(x, y) = Pin(y, x)
-    /\ (StructCopy(x, y) => Pin(x, y) = "T")
-\* the pinned entries alone can never force a contradiction with the axioms
-P_PinClosed   == \A z \in U : (Pin(x, y) = "T" /\ Pin(y, z) = "T") => Pin(x, z) # "F"
-P_WhyTotal    == ~EqSpec(x, y) => Why(x, y) \in {"type", "shape", "cell"}
+P_Symmetric   == EqSpec(NX, NY) = EqSpec(NY, NX)
+P_TypeStrict  == Kind(NX) # Kind(NY) => ~EqSpec(NX, NY)
+P_ShapeStrict == (Tag(NX) = "a" /\ Tag(NY) = "a" /\ Pay(NX)[2] # Pay(NY)[2]) => ~EqSpec(NX, NY)
+P_AgreesWithPy == (Plain(NX) /\ Plain(NY) /\ NaNFree(NX) /\ NaNFree(NY)) => (EqSpec(NX, NY) = PyEqX(NX, NY))
+P_WhyTotal    == ~EqSpec(NX, NY) => Why(NX, NY) \in {"type", "shape", "cell"}
+\* realisations: descriptors are well formed; the value of a realisation is a value (Norm is idempotent and
+\* leaves no concrete node); every generated re-ordering is a realisation of the value it came from; two
+\* realisations of one value are pinned equal, whatever their insertion orders and their memory; a pair of views
+\* with the same cells is pinned equal and a pair with different cells unequal whether or not they share memory
+P_Realisations == LET nx == Norm(x)  ny == Norm(y) IN
+    /\ ConcreteOK(x) /\ ConcreteOK(nx)
+    /\ Norm(nx) = nx
+    /\ \A r \in Reals(nx) : Norm(r) = nx
+    /\ (nx = ny => Pin(nx, ny) = "T" /\ ClauseIfFC(x, y) \in {"copy_unequal", "other_realisation_unequal"})
+    /\ (SameRealisation(x, y) => StructCopy(nx, ny))
+    /\ (ClauseIfFC(x, y) = "other_realisation_unequal" => ~SameRealisation(x, y) /\ StructCopy(nx, ny))
+    /\ ((Tag(x) = "v" /\ Tag(y) = "v") => (Pin(nx, ny) = "T") = (VDt_(x) = VDt_(y) /\ VShp(x) = VShp(y) /\ ViewCells(x) = ViewCells(y)))
+    /\ ((Tag(x) = "v" /\ Tag(y) = "v" /\ SharesCells(x, y)) => MayShare(x, y))
 \* each clause is evaluated once per pair, in the state after Eval (initial states are computed by one thread, successors by all workers)
-Reflexive == ~done \/ P_Reflexive
+\* (the values Norm(x), Norm(y) are bound once per clause: a LET is evaluated at most once)
+Reflexive == ~done \/ LET nx == Norm(x) IN EqSpec(nx, nx) /\ EqSpec(nx, Fresh(nx)) /\ EqSpec(Fresh(nx), nx) /\ StructCopy(nx, Fresh(nx))
 Symmetric == ~done \/ P_Symmetric
-Transitive == ~done \/ P_Transitive
+Transitive == ~done \/ LET nx == Norm(x)  ny == Norm(y) IN EqSpec(nx, ny) => \A z \in NU : EqSpec(ny, z) => EqSpec(nx, z)
 TypeStrict == ~done \/ P_TypeStrict
 ShapeStrict == ~done \/ P_ShapeStrict
 AgreesWithPy == ~done \/ P_AgreesWithPy
-PinSound == ~done \/ P_PinSound
-PinClosed == ~done \/ P_PinClosed
+PinSound == ~done \/ LET nx == Norm(x)  ny == Norm(y) IN
+    /\ (Pin(nx, ny) = "T" => EqSpec(nx, ny))
+    /\ (Pin(nx, ny) = "F" => ~EqSpec(nx, ny))
+    /\ Pin(nx, ny) = Pin(ny, nx)
+    /\ (StructCopy(nx, ny) => Pin(nx, ny) = "T")
+\* the pinned entries alone can never force a contradiction with the axioms
+PinClosed == ~done \/ LET nx == Norm(x)  ny == Norm(y) IN Pin(nx, ny) = "T" => \A z \in NU : Pin(ny, z) = "T" => Pin(nx, z) # "F"
 WhyTotal == ~done \/ P_WhyTotal
 InLaws == ~done \/ P_InLaws
+Realisations == ~done \/ P_Realisations
 =============================================================================
